@@ -215,9 +215,24 @@ def const_eval(repo, module, expr, cls=None, local=None, depth=0):
             return const_eval(repo, owner.module, r[3], owner, None,
                               depth + 1)
         return _from_resolved(repo, r, depth)
+    if isinstance(expr, ast.Subscript):
+        base, idx = ev(expr.value), ev(expr.slice)
+        if base is UNKNOWN or idx is UNKNOWN or not isinstance(
+                base, (dict, list, tuple, str)):
+            return UNKNOWN
+        try:
+            return base[idx]
+        except Exception:
+            return UNKNOWN
     if isinstance(expr, ast.Call):
         fn = unparse(expr.func)
-        if fn in ('re.compile',) and expr.args:
+        is_re_compile = fn == 're.compile'
+        if not is_re_compile and isinstance(expr.func, ast.Attribute) and \
+                expr.func.attr == 'compile' and isinstance(
+                    expr.func.value, ast.Name):
+            imp = getattr(module, 'imports', {}).get(expr.func.value.id)
+            is_re_compile = imp == ('module', 're')
+        if is_re_compile and expr.args:
             p = ev(expr.args[0])
             if isinstance(p, str):
                 return RegexConst(p)
@@ -225,6 +240,15 @@ def const_eval(repo, module, expr, cls=None, local=None, depth=0):
         if isinstance(expr.func, ast.Attribute):
             recv = ev(expr.func.value)
             meth = expr.func.attr
+            if isinstance(recv, dict) and meth == 'get' and \
+                    1 <= len(expr.args) <= 2 and not expr.keywords:
+                args = [ev(a) for a in expr.args]
+                if any(a is UNKNOWN for a in args):
+                    return UNKNOWN
+                try:
+                    return recv.get(*args)
+                except TypeError:
+                    return UNKNOWN
             if isinstance(recv, str):
                 args = [ev(a) for a in expr.args]
                 if any(a is UNKNOWN for a in args) or expr.keywords:
